@@ -3,16 +3,24 @@
 set -e
 cd "$(dirname "$0")"
 export CARGO_NET_OFFLINE=true
+python3 tools/sync.py >/dev/null
 FEATURES=$(python3 -c "
 import json,glob
 fs=set()
 for f in glob.glob('checks/C*.json'):
     fs|=set(json.load(open(f)).get('harness_features',[]))
 print(','.join(sorted(fs)))")
-(cd harness && cargo build --offline --bin harness ${FEATURES:+--features $FEATURES})
-(cd lean && lake build RadixModel Driver $(python3 -c "
+BINS=$(python3 -c "
+import json,glob
+bs=set()
+for f in glob.glob('checks/C*.json'):
+    bs|={a.get('bin',a['area']) for a in json.load(open(f))['areas']}
+print(' '.join('--bin '+b for b in sorted(bs)))")
+(cd harness && cargo build --offline $BINS ${FEATURES:+--features $FEATURES})
+DRIVERS=$(python3 -c "
 import json,glob
 ds=[]
-for f in glob.glob('../checks/C*.json'):
+for f in glob.glob('checks/C*.json'):
     ds+=[a['driver'] for a in json.load(open(f))['areas'] if a.get('driver')]
-print(' '.join(sorted(set(ds))))"))
+print(' '.join(sorted(set(ds))))")
+(cd lean && lake build RadixModel $DRIVERS)
